@@ -66,7 +66,7 @@ def getTextAt (st : CState) (pos : Option Nat) : PM (Str × CState) :=
 
 def getVariable (st : CState) (name : Str) : Option Str :=
   match st.variables with
-  | some vs => if vs.isEmpty then some name else (vs.find? (·.1 == name)).map (·.2)
+  | some vs => if vs.isEmpty then some name else some (((vs.find? (·.1 == name)).map (·.2)).getD name)   -- `.get(name, name)`
   | none => some name
 
 def natToStr (n : Nat) : Str := (toString n).toList.map Char.toNat
@@ -80,13 +80,13 @@ def stringifyTok (t : Tok) (st : CState) : PM (Option Str × CState) :=
     .ok (some [match k with
       | .attribute => if isOpen then 91 else 93
       | .expression => if isOpen then 123 else 125
-      | .group => if isOpen then 40 else 125], st)          -- sic: '}' for a closing group
+      | .group => if isOpen then 40 else 41], st)
   | .operator op =>
     .ok (some [match op with | .child => 62 | .cls => 46 | .climb => 94 | .id => 35 | .equal => 61 | .close => 47 | .sibling => 43], st)
   | .field name index =>
     match index with
     | some i =>
-      if name.isEmpty then .error (.internal "TypeError")     -- '${%s}' % (index, name)
+      if name.isEmpty then .ok (some ([36, 123] ++ natToStr i ++ [125]), st)
       else .ok (some ([36, 123] ++ natToStr i ++ [58] ++ name ++ [125]), st)
     | none => if name.isEmpty then .ok (some [], st) else .ok (getVariable st name, st)
   | .repeaterPlaceholder =>
@@ -95,7 +95,9 @@ def stringifyTok (t : Tok) (st : CState) : PM (Option Str × CState) :=
     | some r => do
       let (s, st2) ← getTextAt st1 (some r.value)
       return (some s, st2)
-    | none => .ok (none, st1)
+    | none => do                                            -- no implicit repeater: the whole text (`get_text(None)`)
+      let (s, st2) ← getTextAt st1 none
+      return (some s, st2)
   | .repeaterNumber size reverse base parent =>
     let value : Int :=
       match st.repeaters.getLast? with
@@ -161,7 +163,7 @@ def convertAttribute (a : TokenAttribute) (st : CState) : PM (AAttr × CState) :
       let nm := c0 :: cs
       let (nm1, b) := if nm.getLast? == some 46 then (nm.dropLast, true) else (nm, false)
       match nm1 with
-      | [] => .error (.internal "IndexError")                    -- name[0] on ''
+      | [] => pure (some [], b, false)                           -- `if name and name[0] == '!'`: an empty name stays
       | h :: tl => if h == 33 then pure (some tl, b, true) else pure (some nm1, b, false)
     | other => pure (other, false, false) : PM (Option Str × Bool × Bool))
   match a.value with
@@ -235,7 +237,7 @@ def repeatBody (conv : Option Rep → CState → PM (List ANode × CState)) (rep
   let (items, st1) ← conv (some cur) st0
   let (items', st2) ← (if cur.implicit && !st1.inserted then
       match items.getLast? with
-      | none => .error (.internal "IndexError")           -- items[-1]
+      | none => pure (items, st1)                          -- `items[-1] if items else None`: nothing to insert into
       | some last => do
         let (tx, st') ← getTextAt st1 (some cur.value)
         pure (items.dropLast ++ [insertDeepest last.depth last tx], st')
@@ -321,7 +323,7 @@ def convert (roots : List TNode) (p : ConvParams) (fuelHint : Nat) : PM (List AN
   let hasText := match p.text with | .none => false | _ => true
   if hasText && !st1.textInserted then
     match items.getLast? with
-    | none => .error (.internal "IndexError")               -- result.children[-1]
+    | none => return items                                  -- `and result.children`: nothing to insert into
     | some last =>
       let tx := match p.text with | .lines ls => strip (joinNl ls) | .str s => strip s | .none => []
       return items.dropLast ++ [insertDeepest last.depth last tx]
